@@ -12,7 +12,8 @@ def check(ctx):
         "and agree with each other; R3 mount_danglings removes by the record's own span_id and appends events to "
         "record.events / properties to record.properties; R4 the commit and sweep releases pass the trace's own "
         "ActiveCollector.danglings (attachments survive cycles); R5 a DropCollect discards parked attachments only when "
-        "cancelable.")
+        "cancelable; R6 capture_local_spans opens a scope on every path, so local attachments made under an inner span "
+        "cannot land on the enclosing one.")
     ctx.not_decided = ("'exactly once ... on no other', order across routes, arbitrary strings: values are moved, never "
                        "inspected (origins show only clone/to_vec/into), equality of contents is a runtime fact.")
     facts = ctx.facts("E")
